@@ -110,9 +110,8 @@ def uncolourLoop (g : G) : List Nat → Dsat → Dsat
 
 /-- the first `i` at which `colouring[chosen[i]] >= upperBound - 1`, giving `mustChange = i - 1`; else `len - 1` -/
 def mustChange (s : Dsat) : Int :=
-  match s.chosen.findIdx? (fun cv => decide (s.colouring.getD cv 0 ≥ s.upper - 1)) with
-  | some i => (i : Int) - 1
-  | none => (s.cur.length : Int) - 1
+  let i0 := s.chosen.findIdx (fun cv => decide (s.colouring.getD cv 0 ≥ s.upper - 1))
+  if i0 < s.chosen.length then (i0 : Int) - 1 else (s.cur.length : Int) - 1
 
 /-- search `for i := mustChange; i >= 0; i--` for a position whose choice can be advanced; argument is `i + 1` -/
 def findAdvance (s : Dsat) : Nat → Option Nat
@@ -127,47 +126,50 @@ inductive DsStep where
   | done : Int → Option (List Int) → DsStep
   | panic : DsStep
 
+/-- the colours `j = 0..maxOption` with `vertex.seenColours[j] == 0`, `maxOption = min(upperBound-2, maxColourUsed+1)` -/
+def dsOptions (s : Dsat) (v : Nat) : List Nat :=
+  let maxOption : Int := if s.maxUsed + 1 < s.upper - 2 then s.maxUsed + 1 else s.upper - 2
+  (List.range (maxOption + 1).toNat).filter fun j => (s.seen.getD v []).getD j 0 == 0
+
+/-- colour the vertex `v` (already removed from the heap) with the first of its options `c` -/
+def dsForward (g : G) (s : Dsat) (v : Nat) (c : List Nat) (toColour : Nat) : Dsat :=
+  let s1 := { s with choices := s.choices ++ [c], cur := s.cur ++ [0], chosen := s.chosen ++ [v],
+                     colouring := s.colouring.set v (toColour : Int),
+                     maxUsed := if (toColour : Int) > s.maxUsed then (toColour : Int) else s.maxUsed }
+  fwdLoop g v toColour (s1.heap.length + 1) 0 s1
+
+/-- advance the choice at position `i`: uncolour everything above, recolour `chosenVertices[i]` -/
+def dsBacktrackTo (g : G) (s : Dsat) (i : Nat) : Dsat :=
+  let ci := s.cur.getD i 0
+  let toColour := (s.choices.getD i []).getD (ci + 1) 0
+  let s1 := uncolourLoop g (s.chosen.drop (i + 1)).reverse s
+  let s2 := { s1 with cur := s1.cur.take (i + 1), choices := s1.choices.take (i + 1),
+                      chosen := s1.chosen.take (i + 1) }
+  let cv := s2.chosen.getD i 0
+  let old := (s2.colouring.getD cv 0).toNat
+  let s3 := s2.heap.foldl (fun st u => if g.adj u cv then seeInc (seeDec st u old) u toColour else st) s2
+  let s4 := { s3 with heap := heapInit s3.num s3.deg s3.heap, cur := s3.cur.set i (ci + 1),
+                      colouring := s3.colouring.set cv (toColour : Int) }
+  let mx := s4.chosen.foldl (fun m u => if s4.colouring.getD u 0 > m then s4.colouring.getD u 0 else m) 0
+  { s4 with maxUsed := mx }
+
+/-- the backtracking part of an iteration (`if len(c) == 0 { … }`) -/
+def dsBacktrack (g : G) (s : Dsat) : DsStep :=
+  match findAdvance s (mustChange s + 1).toNat with
+  | some i => .next (dsBacktrackTo g s i)
+  | none => if s.best.getD 0 0 == -1 then .done (-1) none else .done s.upper (some s.best)
+
 /-- one iteration of `dfsLoop` -/
 def dsIter (g : G) (lower : Int) (s : Dsat) : DsStep :=
-  -- options for the top of the heap, or record a complete colouring
-  let (s, v, c, early) : Dsat × Nat × List Nat × Option DsStep :=
-    if s.heap.length > 0 then
-      let v := s.heap.getD 0 0
-      let maxOption : Int := if s.maxUsed + 1 < s.upper - 2 then s.maxUsed + 1 else s.upper - 2
-      let row := s.seen.getD v []
-      let c := (List.range (maxOption + 1).toNat).filter fun j => row.getD j 0 == 0
-      let s' := if c.length > 0 then { s with heap := heapRemove0 s.num s.deg s.heap } else s
-      (s', v, c, none)
-    else
-      let s' := { s with best := s.colouring, upper := s.maxUsed + 1 }
-      if s'.upper ≤ lower then (s', 0, [], some (.done s'.upper (some s'.best))) else (s', 0, [], none)
-  match early with
-  | some r => r
-  | none =>
-    match c with
-    | [] =>
-      let mc := mustChange s
-      match findAdvance s (mc + 1).toNat with
-      | some i =>
-        let ci := s.cur.getD i 0
-        let toColour := (s.choices.getD i []).getD (ci + 1) 0
-        let s1 := uncolourLoop g (s.chosen.drop (i + 1)).reverse s
-        let s2 := { s1 with cur := s1.cur.take (i + 1), choices := s1.choices.take (i + 1),
-                            chosen := s1.chosen.take (i + 1) }
-        let cv := s2.chosen.getD i 0
-        let old := (s2.colouring.getD cv 0).toNat
-        let s3 := s2.heap.foldl (fun st u => if g.adj u cv then seeInc (seeDec st u old) u toColour else st) s2
-        let s4 := { s3 with heap := heapInit s3.num s3.deg s3.heap, cur := s3.cur.set i (ci + 1),
-                            colouring := s3.colouring.set cv (toColour : Int) }
-        let mx := s4.chosen.foldl (fun m u => if s4.colouring.getD u 0 > m then s4.colouring.getD u 0 else m) 0
-        .next { s4 with maxUsed := mx }
-      | none =>
-        if s.best.getD 0 0 == -1 then .done (-1) none else .done s.upper (some s.best)
-    | toColour :: _ =>
-      let s1 := { s with choices := s.choices ++ [c], cur := s.cur ++ [0], chosen := s.chosen ++ [v],
-                         colouring := s.colouring.set v (toColour : Int),
-                         maxUsed := if (toColour : Int) > s.maxUsed then (toColour : Int) else s.maxUsed }
-      .next (fwdLoop g v toColour (s1.heap.length + 1) 0 s1)
+  if s.heap.length > 0 then
+    let v := s.heap.getD 0 0
+    match dsOptions s v with
+    | [] => dsBacktrack g s
+    | toColour :: rest =>
+      .next (dsForward g { s with heap := heapRemove0 s.num s.deg s.heap } v (toColour :: rest) toColour)
+  else
+    let s' := { s with best := s.colouring, upper := s.maxUsed + 1 }
+    if s'.upper ≤ lower then .done s'.upper (some s'.best) else dsBacktrack g s'
 
 def dsLoop (g : G) (lower : Int) : Nat → Dsat → Outcome (Int × Option (List Int))
   | 0, _ => .outOfFuel
